@@ -67,7 +67,7 @@ def assemble(scratch, sections, name="obj"):
     """sections: list of (name, [bytes]); returns path of an ELF object"""
     src = []
     for sec, byts in sections:
-        src.append('.section %s,"ax",@progbits' % sec if sec != ".text" else ".text")
+        src.append('.section "%s","ax",@progbits' % sec if sec != ".text" else ".text")
         for i in range(0, len(byts), 16):
             src.append(".byte " + ",".join(str(b) for b in byts[i:i + 16]))
     spath = os.path.join(scratch.dir, name + ".S")
